@@ -10,7 +10,8 @@ BOUNDED, never counted as proved.  Bound: one schema (interface + 2 object types
 enum / list / non-null / nested fields, arguments); documents `{ pet { A B } }` and
 `{ pet { A B C } }` where A, B, C range over 9 field atoms x 6 wrappers (plain, inline fragments on
 Dog / Cat / Pet, spreads of fragments on Dog / Cat, a fragment holding only a spread, nested one level,
-fragments spreading each other incl. a cycle); quick: all pairs + 1500 seeded triples, thorough: all pairs + 20000 triples.
+fragments spreading each other incl. a cycle); quick: all pairs + every pair of named spreads with an unrelated spread between them + 1500 seeded
+triples, thorough: the same with 20000 triples.
 @stream and fragment arguments (experimental) are not generated.  Runs natively."""
 import itertools
 import random
@@ -52,6 +53,11 @@ def wrappers(atom, k):
         out.append(("... on Cat { %s }" % atom, ""))
         out.append(("...C%d" % k, "fragment C%d on Cat { %s }" % (k, atom)))
     # a fragment that holds nothing but a spread (its own field map is empty)
+    # an inline fragment without a type condition inside a typed one (its parent is the enclosing type)
+    if atom not in CAT_ONLY:
+        out.append(("... on Dog { ... { %s } }" % atom, ""))
+    if atom not in DOG_ONLY:
+        out.append(("... on Cat { ... @include(if: true) { %s } }" % atom, ""))
     if atom not in DOG_ONLY and atom not in CAT_ONLY:
         out.append(("...AG%d" % k, "fragment AG%d on Pet { ...LF%d }\nfragment LF%d on Pet { %s }" % (k, k, k, atom)))
     return out
@@ -188,7 +194,13 @@ def search(seed=0, thorough=False, budget_s=420):
     combos = list(itertools.combinations(range(len(items)), 2))
     triples = [tuple(sorted(rnd.sample(range(len(items)), 3))) for _ in range(20000 if thorough else 1500)]
     n = 0
-    for combo in combos + triples:
+    # two sibling spreads with an unrelated spread between them (siblings that are not adjacent)
+    NEUTRAL = ("...Neutral", "fragment Neutral on Pet { zz: name }")
+    items.append(NEUTRAL)
+    neutral = len(items) - 1
+    spread_ix = [i for i, it_ in enumerate(items) if it_[0].startswith("...") and " " not in it_[0] and i != neutral]
+    apart = [(i, neutral, j) for i, j in itertools.combinations(spread_ix, 2)]
+    for combo in combos + apart + triples:
         if time.time() - t0 > budget_s:
             break
         sels = " ".join(items[i][0] for i in combo)
